@@ -127,7 +127,7 @@ class Ctx:
                 f["count"] += 1
                 return
         self.failures.append(
-            {"signature": signature, "detail": str(detail)[:2000], "spec": jsonable(spec), "count": 1}
+            {"signature": signature, "detail": str(detail)[:2000], "spec": jsonable(spec), "count": 1, "f32": bool(self.f32)}
         )
 
     def dump(self):
